@@ -49,6 +49,12 @@ namespace Xsg
 @[simp] theorem attrs_withPosition (cs) (e : Elem) : (withPosition cs e).attrs = e.attrs := by
   unfold withPosition; split <;> simp
 
+@[simp] theorem position_new (n as) : (Elem.new n as).position = none := rfl
+theorem position_withPosition_some (cs) (e : Elem) (p : Nat) (h : e.position = some p) : (withPosition cs e).position = some p := by
+  unfold withPosition; simp [h]
+theorem position_withPosition_none (cs : List (Nec × Elem)) (e : Elem) (h : e.position = none) : (withPosition cs e).position = some cs.length := by
+  unfold withPosition; simp [h]; cases e; rfl
+
 theorem setChildren_self (e : Elem) : e.setChildren e.children = e := by cases e; rfl
 
 /-- everything but children and text -/
@@ -62,22 +68,6 @@ structure Same (X X' : Elem) : Prop where
 theorem Same.refl (X : Elem) : Same X X := ⟨rfl, rfl, rfl, rfl, rfl⟩
 theorem Same.trans {X Y Z : Elem} (h1 : Same X Y) (h2 : Same Y Z) : Same X Z :=
   ⟨h2.name.trans h1.name, h2.count.trans h1.count, h2.standalone.trans h1.standalone, h2.attrs.trans h1.attrs, h2.position.trans h1.position⟩
-
-def mark (known : List Name) (n : Name) : List Name := if known.contains n then known else known ++ [n]
-
-theorem mem_mark {known : List Name} {n d : Name} : d ∈ mark known n ↔ d ∈ known ∨ d = n := by
-  unfold mark
-  by_cases h : known.contains n = true
-  · rw [if_pos h]
-    constructor
-    · exact Or.inl
-    · rintro (h' | rfl); exact h'; exact List.contains_iff_mem.mp h
-  · rw [if_neg h]; simp
-
-theorem contains_eq_decide (known : List Name) (k : Name) : known.contains k = decide (k ∈ known) := by
-  by_cases h : k ∈ known
-  · simp [h]
-  · simp [h]
 
 /-! ### `toOptional` does not look at the position, and `tagOpt []` on an untouched element -/
 theorem toOptional_congr (S : Snapshot) {C C' : Elem} (h : C'.children = C.children) : toOptional S C' = toOptional S C := by
@@ -133,6 +123,7 @@ structure ClosedBy (parent : Frame) (child : Elem) (snap : Option Snapshot) (f' 
     | none => withPosition parent.elem.children child)
   others : ∀ m, m ≠ child.name → getChild f'.elem.children m = getChild parent.elem.children m
   nodup : (childNames f'.elem.children).Nodup
+  len : f'.elem.children.length = parent.elem.children.length + 1
   known : f'.known = mark parent.known child.name
   snap_eq : f'.snap = parent.snap
   same : Same parent.elem f'.elem
@@ -146,14 +137,15 @@ theorem closeTag_spec (parent : Frame) (child : Elem) (snap : Option Snapshot)
   have hne : ∀ m, m ≠ child.name → getChild (addUniqueChild parent.elem.children child) m = getChild parent.elem.children m :=
     fun m hm => getChild_addUniqueChild_ne hm
   have hnd' := nodup_addUniqueChild (c := child) hnd
+  have hlen : (addUniqueChild parent.elem.children child).length = parent.elem.children.length + 1 := by rw [hadd]; simp
   cases snap with
   | none =>
-    refine ⟨?_, ?_, ?_, rfl, rfl, ⟨by simp [closeTag], by simp [closeTag], by simp [closeTag], by simp [closeTag], by simp [closeTag]⟩, by simp [closeTag]⟩
+    refine ⟨?_, ?_, ?_, by simpa [closeTag] using hlen, rfl, rfl, ⟨by simp [closeTag], by simp [closeTag], by simp [closeTag], by simp [closeTag], by simp [closeTag]⟩, by simp [closeTag]⟩
     · simpa [closeTag] using hself
     · intro m hm; simpa [closeTag] using hne m hm
     · simpa [closeTag] using hnd'
   | some S =>
-    refine ⟨?_, ?_, ?_, rfl, rfl, ⟨by simp [closeTag], by simp [closeTag], by simp [closeTag], by simp [closeTag], by simp [closeTag]⟩, by simp [closeTag]⟩
+    refine ⟨?_, ?_, ?_, ?_, rfl, rfl, ⟨by simp [closeTag], by simp [closeTag], by simp [closeTag], by simp [closeTag], by simp [closeTag]⟩, by simp [closeTag]⟩
     · simp only [closeTag, children_setChildren]
       rw [getChild_tagOptIn]; simp [hself]
     · intro m hm
@@ -161,6 +153,10 @@ theorem closeTag_spec (parent : Frame) (child : Elem) (snap : Option Snapshot)
       rw [getChild_tagOptIn]; simp [hm, hne m hm]
     · simp only [closeTag, children_setChildren]
       rw [childNames_tagOptIn]; exact hnd'
+    · simp only [closeTag, children_setChildren]
+      have : (tagOptIn (addUniqueChild parent.elem.children child) child.name S).length = (childNames (tagOptIn (addUniqueChild parent.elem.children child) child.name S)).length := by
+        simp [childNames]
+      rw [this, childNames_tagOptIn]; simpa [childNames] using hlen
 
 end Xsg
 
@@ -225,7 +221,7 @@ theorem openChild_some {X : Elem} {known : List Name} {k : Name} {as : List Name
     let C0 := openChild X known k as
     C0.name = k ∧ C0.children = C.children ∧ C0.count = C.count + 1 ∧
     C0.standalone = (C.standalone && !known.contains k) ∧ C0.attrs = mergeNec C.attrs (as.map fun a => (Nec.man, a)) ∧
-    C0.text = C.text := by
+    C0.text = C.text ∧ C0.position = C.position := by
   have hn : C.name = k := getChild_some_name h
   simp only [openChild, openTag, h]
   by_cases hk : k ∈ known <;> simp [hk, hn]
@@ -234,7 +230,7 @@ theorem openChild_none {X : Elem} {known : List Name} {k : Name} {as : List Name
     (h : getChild X.children k = none) :
     let C0 := openChild X known k as
     C0.name = k ∧ C0.children = [] ∧ C0.count = 1 ∧
-    C0.standalone = (!known.contains k) ∧ C0.attrs = as.map (fun a => (Nec.man, a)) ∧ C0.text = false := by
+    C0.standalone = (!known.contains k) ∧ C0.attrs = as.map (fun a => (Nec.man, a)) ∧ C0.text = false ∧ C0.position = none := by
   simp only [openChild, openTag, h]
   by_cases hk : k ∈ known <;> simp [hk]
 
@@ -252,11 +248,13 @@ structure NodeSpec (f f' : Frame) (n : Node) : Prop where
   known : ∀ d, d ∈ f'.known ↔ d ∈ f.known ∨ d = n.name
   others : ∀ d, d ≠ n.name → getChild f'.elem.children d = getChild f.elem.children d
   post : Post (getChild f.elem.children n.name) f.known (getChild f'.elem.children n.name) n.name [n]
+  pos : ∀ ord, PosInv f.elem.children ord → PosInv f'.elem.children (mark ord n.name)
 
 structure ItemsSpec (f f' : Frame) (is : Items) : Prop where
   nodup : (childNames f'.elem.children).Nodup
   known : ∀ d, d ∈ f'.known ↔ d ∈ f.known ∨ is.named d ≠ []
   post : ∀ d, Post (getChild f.elem.children d) f.known (getChild f'.elem.children d) d (is.named d)
+  pos : ∀ ord, PosInv f.elem.children ord → PosInv f'.elem.children (marks ord is)
 
 theorem Node.named_mk (k as sc items d) : (Node.mk k as sc items).named d = items.named d := rfl
 theorem Node.hasText_mk (k as sc items) : (Node.mk k as sc items).hasText = items.hasText := rfl
@@ -289,11 +287,84 @@ theorem absorbNode_spec (n : Node) (f : Frame) (hnd : (childNames f.elem.childre
     have hothers := hcl.others
     have hknown := hcl.known
     rw [hC1name] at hentry hothers hknown
-    refine ⟨hcl.nodup, ?_, ?_, ?_⟩
+    have hothersX : ∀ d, d ≠ k → getChild (closeTag (openTag f k as).1 inner.elem (if sc then some [] else inner.snap)).elem.children d = getChild f.elem.children d := by
+      intro d hd; rw [hothers d hd, hparent, getChild_eraseChild_ne hd]
+    -- the position of the rebuilt child is that of `withPosition _ inner.elem`
+    have hFpos : ∀ F, getChild (closeTag (openTag f k as).1 inner.elem (if sc then some [] else inner.snap)).elem.children k = some (Nec.man, F) →
+        F.position = (withPosition (openTag f k as).1.elem.children inner.elem).position := by
+      intro F hF
+      rw [hentry] at hF
+      have := (Prod.mk.inj (Option.some.inj hF)).2
+      rw [← this]
+      cases (if sc then some [] else inner.snap : Option Snapshot) <;> simp
+    refine ⟨hcl.nodup, ?_, ?_, ?_, ?_⟩
     · intro d; rw [hknown, mem_mark]; simp [openTag_fst, Node.name_mk]
     · intro d hd
       simp only [Node.name_mk] at hd
-      rw [hothers d hd, hparent, getChild_eraseChild_ne hd]
+      exact hothersX d hd
+    rotate_left
+    · -- positions
+      intro ord hp
+      simp only [Node.name_mk]
+      by_cases hk : k ∈ ord
+      · rw [mark_of_mem hk]
+        have hne := (hp.mem k).mp hk
+        obtain ⟨pC, hg⟩ := Option.ne_none_iff_exists'.mp hne
+        obtain ⟨necC, C⟩ := pC
+        · -- (indentation block)
+          have hc0pos : C0.position = C.position := (openChild_some (known := f.known) (as := as) hg).2.2.2.2.2.2
+          refine ⟨hp.nodup, ?_, ?_, ?_⟩
+          · rw [hcl.len, hparent]
+            have := length_eraseChild hg
+            rw [this]; exact hp.len
+          · intro d
+            by_cases hd : d = k
+            · subst hd; rw [hentry]; simp [hk]
+            · rw [hothersX d hd]; exact hp.mem d
+          · intro j d hj
+            by_cases hd : d = k
+            · subst hd
+              obtain ⟨nec', c', hc', hpos'⟩ := hp.pos j d hj
+              rw [hg] at hc'
+              have hCc : C = c' := (Prod.mk.inj (Option.some.inj hc')).2
+              refine ⟨_, _, hentry, ?_⟩
+              rw [hFpos _ hentry]
+              apply position_withPosition_some
+              rw [hkeep.same.position, hc0pos, hCc]; exact hpos'
+            · rw [hothersX d hd]; exact hp.pos j d hj
+      · rw [mark_of_not_mem hk]
+        have hg : getChild f.elem.children k = none := by
+          cases hg : getChild f.elem.children k with
+          | none => rfl
+          | some x => exact absurd ((hp.mem k).mpr (by rw [hg]; simp)) hk
+        have hc0pos : C0.position = none := (openChild_none (known := f.known) (as := as) hg).2.2.2.2.2.2
+        have hlenp : (openTag f k as).1.elem.children.length = ord.length := by
+          rw [hparent, eraseChild_of_absent hg]; exact hp.len
+        refine ⟨by rw [← mark_of_not_mem hk]; exact nodup_mark hp.nodup k, ?_, ?_, ?_⟩
+        · rw [hcl.len, hlenp]; simp
+        · intro d
+          by_cases hd : d = k
+          · subst hd; rw [hentry]; simp
+          · rw [hothersX d hd, ← hp.mem d]; simp [hd]
+        · intro j d hj
+          by_cases hjl : j < ord.length
+          · rw [List.getElem?_append_left hjl] at hj
+            have hd : d ≠ k := by
+              intro e; subst e
+              exact hk (List.mem_of_getElem? hj)
+            rw [hothersX d hd]; exact hp.pos j d hj
+          · have hjl' : ord.length ≤ j := Nat.le_of_not_lt hjl
+            rw [List.getElem?_append_right hjl'] at hj
+            have hj0 : j - ord.length = 0 := by
+              cases hjj : j - ord.length with
+              | zero => rfl
+              | succ m => rw [hjj] at hj; simp at hj
+            rw [hj0] at hj
+            simp only [List.getElem?_cons_zero, Option.some.injEq] at hj
+            subst hj
+            refine ⟨_, _, hentry, ?_⟩
+            rw [hFpos _ hentry, position_withPosition_none _ _ (by rw [hkeep.same.position]; exact hc0pos), hlenp]
+            congr 1; omega
     · simp only [Node.name_mk]
       rw [hentry]
       unfold Post
@@ -302,7 +373,7 @@ theorem absorbNode_spec (n : Node) (f : Frame) (hnd : (childNames f.elem.childre
       cases hold : getChild f.elem.children k with
       | none =>
         have hS : S = none := by simp [S, hold]
-        obtain ⟨-, hc0, hcnt, hst, hat, htx⟩ := openChild_none (known := f.known) (as := as) hold
+        obtain ⟨-, hc0, hcnt, hst, hat, htx, -⟩ := openChild_none (known := f.known) (as := as) hold
         have hspec := absorbItems_spec items ⟨C0, [], S⟩ (by show (childNames C0.children).Nodup; rw [hc0]; simp [childNames]) hio
         -- the final child is `withPosition _ inner.elem`, possibly through `tagOpt []` which changes nothing
         have hF : (match (if sc then some [] else inner.snap : Option Snapshot) with
@@ -330,6 +401,7 @@ theorem absorbNode_spec (n : Node) (f : Frame) (hnd : (childNames f.elem.childre
             · rw [hkeep.text, Node.hasText_mk]
               have htx' : C0.text = false := htx
               simp [htx']
+            · exact hspec.pos [] (PosInv_congr hc0 PosInv.nil)
             · intro d
               have := hspec.post d
               have e0 : getChild C0.children d = none := by rw [hc0]; rfl
@@ -343,7 +415,7 @@ theorem absorbNode_spec (n : Node) (f : Frame) (hnd : (childNames f.elem.childre
       | some p =>
         obtain ⟨nec, C⟩ := p
         have hS : S = some (snapshot C) := by simp [S, hold]
-        obtain ⟨-, hc0, hcnt, hst, hat, htx⟩ := openChild_some (known := f.known) (as := as) hold
+        obtain ⟨-, hc0, hcnt, hst, hat, htx, -⟩ := openChild_some (known := f.known) (as := as) hold
         simp only
         -- counters and flags of the final child are those of `inner.elem`
         have hFcount : ∀ S', (tagOpt S' (withPosition (openTag f k as).1.elem.children inner.elem)).count = C.count + 1 := by
@@ -377,6 +449,7 @@ theorem absorbNode_spec (n : Node) (f : Frame) (hnd : (childNames f.elem.childre
           · rw [hkeep.text, Node.hasText_mk]
             have htx' : C0.text = C.text := htx
             simp [htx']
+          · exact hspec.pos (orderOf occs) (PosInv_congr hc0 hm.posInv)
           · intro d
             have := hspec.post d
             simp only at this
@@ -388,19 +461,21 @@ theorem absorbNode_spec (n : Node) (f : Frame) (hnd : (childNames f.elem.childre
 theorem absorbItems_spec (is : Items) (f : Frame) (hnd : (childNames f.elem.children).Nodup) (hok : is.ok = true) :
     ItemsSpec f (absorbItems f is) is := by
   cases is with
-  | nil => exact ⟨hnd, by simp [absorbItems, Items.named], by intro d; simp [absorbItems, Items.named, Post]⟩
+  | nil => exact ⟨hnd, by simp [absorbItems, Items.named], by intro d; simp [absorbItems, Items.named, Post], fun ord hp => hp⟩
   | other r =>
     have := absorbItems_spec r f hnd (by simpa [Items.ok] using hok)
-    exact ⟨this.nodup, by simpa [absorbItems, Items.named] using this.known, by simpa [absorbItems, Items.named] using this.post⟩
+    exact ⟨this.nodup, by simpa [absorbItems, Items.named] using this.known, by simpa [absorbItems, Items.named] using this.post,
+      fun ord hp => by simpa [absorbItems, marks] using this.pos ord hp⟩
   | text cd r =>
     have := absorbItems_spec r { f with elem := f.elem.setText true } (by simpa using hnd) (by simpa [Items.ok] using hok)
-    exact ⟨this.nodup, by simpa [absorbItems, Items.named] using this.known, by simpa [absorbItems, Items.named] using this.post⟩
+    exact ⟨this.nodup, by simpa [absorbItems, Items.named] using this.known, by simpa [absorbItems, Items.named] using this.post,
+      fun ord hp => by simpa [absorbItems, marks] using this.pos ord (PosInv_congr (by simp) hp)⟩
   | elem n r =>
     simp only [Items.ok, Bool.and_eq_true] at hok
     have a := absorbNode_spec n f hnd hok.1
     have b := absorbItems_spec r (absorbNode f n) a.nodup hok.2
     simp only [absorbItems]
-    refine ⟨b.nodup, ?_, ?_⟩
+    refine ⟨b.nodup, ?_, ?_, fun ord hp => by simpa [marks] using b.pos _ (a.pos ord hp)⟩
     · intro d; rw [b.known d, a.known d]; simp only [Items.named]
       by_cases e : n.name = d
       · subst e; simp
